@@ -220,6 +220,7 @@ class Interp:
         self.on_call: list[Callable] = []  # (interp, fn, node, callee_desc, args, kwargs)
         self.on_return: list[Callable] = []  # (interp, fn, node, value)
         self.on_stmt: list[Callable] = []  # (interp, fn, stmt, env)
+        self.on_raise: list[Callable] = []  # (interp, fn, stmt, env)
         self.events: list = []  # domains append diagnostics here
         self.undecided: list = []
         self.steps = 0
@@ -458,6 +459,8 @@ class Interp:
     def st_Raise(self, st, env, rets, fn):
         if st.exc is not None:
             self.eval(st.exc, env, fn)
+        for cb in self.on_raise:
+            cb(self, fn, st, env)
         return []
 
     def st_Pass(self, st, env, rets, fn):
@@ -897,7 +900,8 @@ class Interp:
                 if isinstance(a, Const):
                     res = a.value is None
                     return Const(res if isinstance(node.ops[0], ast.Is) else not res)
-                if a is not TOP and not isinstance(a, Const) and getattr(a, "maybe_none", True) is False:
+                if isinstance(a, (Tup, ListOf, DictV, Obj, FuncRef, ClassRef, ModRef, LambdaRef)) or (
+                        a is not TOP and not isinstance(a, (Const, ExtRef)) and getattr(a, "maybe_none", True) is False):
                     return Const(isinstance(node.ops[0], ast.IsNot))
         return self.domain.compare(self, node, vals)
 
